@@ -117,6 +117,13 @@ def gen_symmetry():
         yield f"{{slot(1..3,1..2)}}. r(1). a :- {lits}, {', '.join(f'{a} != {b}' for a, b in pairs)}, r(J1)." + show, [""]
     for agg in ("#count", "#sum"):
         yield f"{{slot(1..3,1..2)}}. a(M) :- slot(J1,M), slot(J2,M), J1 != J2, 2 <= {agg}{{J : slot(J,M)}}." + show, [""]
+    # symmetric joins inside aggregate conditions: compared variables in / not in the tuple
+    for tup in ("J1", "J1,J2", "M", "1,M", "J1,M"):
+        for cmp_ in ("J1 != J2", "J1 < J2", "J1 != J2, M1 != M2"):
+            m1, m2 = ("M1", "M2") if "M1" in cmp_ else ("M", "M")
+            tup_ = tup.replace("M", m1) if "M1" in cmp_ else tup
+            for wrap in (":- #count{{{T} : slot(J1,{A}), slot(J2,{B}), {C}}} >= 2.", "a(N) :- N = #count{{{T} : slot(J1,{A}), slot(J2,{B}), {C}}}.", ":~ slot(J1,{A}), slot(J2,{B}), {C}. [1@1,{T}]"):
+                yield "{slot(1..3,1..2)}. " + wrap.format(T=tup_, A=m1, B=m2, C=cmp_) + show, [""]
 
 
 def gen_unused():
@@ -221,6 +228,16 @@ def gen_cleanup3():
             yield d_ + " " + u + show, ["c(1). d(1).", "c(1..2). d(2..3).", "d(1..2)."], [("c", 1), ("d", 1)]
 
 
+def gen_cleanup4():
+    """several occurrences of one predicate in a head (disjunction, choice, head aggregate)"""
+    show = " #show out/1. #show b/1. #show c/1."
+    heads = ["a(X); a(Y) :- b(X), c(Y).", "{ a(X); a(Y) } :- b(X), c(Y).", "{ a(X) : b(X); a(Y) : c(Y) }.", "a(X) : b(X); a(Y) : c(Y) :- b(_).", "#sum{ 1,X : a(X) : b(X); 1,Y,y : a(Y) : c(Y) } 2.", "a(X); d(Y) :- b(X), c(Y).", "a(X); a(X) :- b(X), c(X)."]
+    uses = ["out(X) :- a(X), b(X).", "out(X) :- a(X), c(X).", "out(X) :- a(X), b(X), c(X).", "out(X) :- a(X), not b(X).", "out(X) :- a(X)."]
+    for h in heads:
+        for u in uses:
+            yield "{ b(1..2); c(1..2) }. " + h + " " + u + show, [""]
+
+
 def gen_projection2():
     show = " #show h/0. #show h/1. #show h/2. #show a/2."
     bodies = ["a(A,B), b(B,C), c(C,D), d(D)", "a(A,B), b(B,C), not c(C,A)", "a(A,B), b(B,C), C != A", "a(A,B), b(B,_), d(A)", "a(A,B), b(C,D), B < C", "a(A,B), b(B,C), N = #count{X : c(X,C)}, N > 0", "a(A,B), b(B,C), d(X) : c(X,C)", "a(A,B), b(B,C), not d(C), not d(B)", "a(A,B), b(B,C), c(C,D), D = A + 1", "a(A,B), 1 {b(B,C) : d(C)}"]
@@ -239,8 +256,8 @@ def gen_projection2():
 def gen_unused3():
     """copy rules ("a :- b.") in many forms: negated, zero arity, constants, chained, used under negation"""
     show = " #show out/0. #show out/1. #show b/0. #show b/1. #show b/2."
-    copies = ["a :- b.", "a :- not b.", "a :- not not b.", "a(X) :- b(X).", "a(X) :- b(X), c(X).", "a(X) :- b(X). a(3) :- c(1).", "a(X,Y) :- b(Y,X).", "a(1) :- b(2).", "a(X) :- b(X,_).", "a(X) :- b(f(X))."]
-    uses = ["out :- a.", "out :- not a.", "out(X) :- a(X).", "out(X) :- c(X), not a(X).", "out(X) :- a(X,_).", "out(X) :- a(X,Y), c(Y).", "out(N) :- N = #count{X : a(X)}.", "out :- a, c(1)."]
+    copies = ["a(X,Y) :- b(X,Y).", "a(X,Y) :- b(Y,X).", "a :- b.", "a :- not b.", "a :- not not b.", "a(X) :- b(X).", "a(X) :- b(X), c(X).", "a(X) :- b(X). a(3) :- c(1).", "a(X,Y) :- b(Y,X).", "a(1) :- b(2).", "a(X) :- b(X,_).", "a(X) :- b(f(X))."]
+    uses = ["out(X0) :- a(Y0,X0), Y0 > 1.", "out(X0) :- a(Y0,X0), a(X0,Y0).", "out(Y) :- a(Y,X), a(X,_).", "out :- a.", "out :- not a.", "out(X) :- a(X).", "out(X) :- c(X), not a(X).", "out(X) :- a(X,_).", "out(X) :- a(X,Y), c(Y).", "out(N) :- N = #count{X : a(X)}.", "out :- a, c(1)."]
     for c_ in copies:
         for u in uses:
             yield "{b}. {b(1..2)}. {b(1..2,1..2)}. {b(f(1))}. c(1..2). " + c_ + " " + u + show, [""]
@@ -373,7 +390,7 @@ GENERATORS = {
 }
 # second-wave schemas (run in addition to the first wave of the same trait)
 EXTRA = {
-    "cleanup": [gen_cleanup2, gen_cleanup3],
+    "cleanup": [gen_cleanup2, gen_cleanup3, gen_cleanup4],
     "projection": [gen_projection2],
     "unused": [gen_unused2, gen_unused3, gen_unused4],
     "duplication": [gen_duplication2],
